@@ -29,13 +29,10 @@ Theorem C04_convert_ok_exact : forall (E : evm_model) (M : account) (m : msg) b 
     (uses_transfer m = true -> r = RetTrue /\ Forall (fun l => l = LogOther) logs).
 Proof. exact convert_ok_exact. Qed.
 
-(** the same with the precondition on the denomination explicit: [exec_named]
-    is the handler including the (unreachable) case of a MsgConvertCoin that
-    spells its denomination like the pair's contract address; exactness needs
-    "a MsgConvertCoin names the pair's own denomination"
-    (Proofs: convert_ok_exact_without_own_denom_refuted shows it is needed) *)
+(** the same for [exec_named], the handler including a MsgConvertCoin that spells
+    its denomination like the pair's contract address: no precondition on the
+    denomination is needed, because such a message is refused (next theorem) *)
 Theorem C04_convert_ok_exact_named : forall (E : evm_model) (M : account) own (m : msg) other b e b' e' other',
-  (m_dir m = CoinToToken -> own = true) ->
   exec_named E M own m other (b, e) = (Done (b', e'), other') ->
   other' = other /\
   0 < m_amt m /\ m_gate m = true /\ m_has_code m = true /\
@@ -47,6 +44,12 @@ Theorem C04_convert_ok_exact_named : forall (E : evm_model) (M : account) own (m
     t1 = t0 + token_delta m /\
     (uses_transfer m = true -> r = RetTrue /\ Forall (fun l => l = LogOther) logs).
 Proof. exact convert_ok_exact_named. Qed.
+
+(** a coin merely NAMED like the pair's contract address is never converted *)
+Theorem C04_lookalike_denomination_refused : forall (E : evm_model) (M : account) (m : msg) other s,
+  m_dir m = CoinToToken ->
+  exists x, exec_named E M false m other s = (Failed x (fst s), other).
+Proof. exact lookalike_denomination_refused. Qed.
 
 Theorem C04_convert_coin_debits_sender : forall (E : evm_model) (M : account) (m : msg) b e b' e',
   exec E M m (b, e) = Done (b', e') -> m_dir m = CoinToToken -> m_sender m <> M ->
@@ -164,6 +167,7 @@ Proof. exact round_trip_four_balances. Qed.
 
 Print Assumptions C04_convert_ok_exact.
 Print Assumptions C04_convert_ok_exact_named.
+Print Assumptions C04_lookalike_denomination_refused.
 Print Assumptions C04_convert_coin_debits_sender.
 Print Assumptions C04_convert_erc20_credits_receiver.
 Print Assumptions C04_convert_failure_atomic.
